@@ -34,7 +34,14 @@ def main():
         sys.exit(2)
     if a.replay:
         rp = json.load(open(a.replay))
-        ok = mod.replay(rp)
+        if rp.get("kind") == "obligation":
+            # a broken proof obligation / translator tie is replayed by rebuilding the property's theorems
+            chk = vlib.Check(a.pid, tier, seed)
+            ok, why = chk.prove("Props/%s.v" % a.pid)
+            if not ok:
+                print("obligation still broken: " + why[-600:])
+        else:
+            ok = mod.replay(rp)
         if ok:
             print("replay: the recorded input no longer fails")
             sys.exit(0)
